@@ -44,6 +44,10 @@ def history_check(prop, tier, seed, shapes, monitors, modules, profiles, p_inval
         # swap / sort ranges): nothing may be destroyed twice or leaked
         suites.append(run_suite(prop, gen.slicemut_invalid([x for x in shapes if x in ("One", "Two", "Heap", "NMid", "DrN")] if tier == "quick" else shapes, min(z["L"], 3), seed),
                                 profiles, monitors, "slicemut", compare_model=False))
+        # a callback of retain / retain_mut that panics at any of its calls, after any mix of answers (and writes): what the
+        # container holds afterwards and what was destroyed still add up (ledger, final drop included)
+        rf, _ = gen.fault_scenarios([x for x in shapes if x in ("Two", "Heap", "DrH", "NMid", "DrN")] if tier == "quick" else shapes, 3 if tier == "quick" else 4, seed)
+        suites.append(run_suite(prop, rf, ["debug"] if tier == "quick" else profiles, monitors, "retain-fault", compare_model=False))
     if prop == "C08":
         # the other ways an element is moved in or out must not run the struct's destructor either: pointer writes / reads,
         # RefMut::replace, writes through views and mutable iterators, conversions of references
